@@ -936,10 +936,14 @@ func init() {
 			return 1200
 		},
 		ChunkSize:   40,
-		Rule:        "each case issues 2-40 (thorough: up to 512) concurrent Subscribe/SubscribeLimit*/Unsubscribe calls with unique filters (so request <-> packet identifier is read off the wire) plus 0-4 Ping calls, a quarter with a quit channel; the reference broker withholds every response and a PRNG script of 3-10 steps then answers subsets in random order, duplicates a response, sends unsolicited SUBACK/UNSUBACK/PINGRESP of the right spaces, fails random filter subsets with 0x80, sends a SUBACK with an illegal code or a surplus code for a pending request, breaks the connection, fires quits, issues more requests, calls Close; random yields/sleeps at the Ping hook points; finally everything still answerable is answered. Every 10th case drives the Ping slot hand-over window deterministically through the hook points ping.writefail / ping.quit (park the releasing Ping, let the read routine clear the slot, let a second Ping install, continue). Every 10th case issues 2-8 requests (all kinds, half with a quit) while a reconnect attempt is held pending for 45-85 ms, fires some quits while it is pending (ErrCanceled), then lets the attempt fail by dial error, refusal or missing CONNACK with no further attempt: every request returns ErrDown; or the attempt succeeds after quits fired during the wait, some of the requests then get abandoned with the answer owed and new ones follow (no identifier goes out again while the broker owes an answer under it, and a final Ping proves that nobody lost the write lock). One case keeps a request open while 8,200 others complete, so that the identifier counter comes round to it. Oracle per call, by logical-time intervals: it returns; nil only with a success response for ITS identifier delivered before the return; SubscribeError with exactly the filters its SUBACK failed, in order; ErrSubmit/ErrBreak/ErrDown only with a connection lost (or Close) before the return; ErrCanceled/ErrAbandoned only after its quit fired; ErrClosed only after Close; ErrMax for Ping only with another Ping in flight, for the others only with hundreds of them in flight during the call; successful Pings <= PINGRESPs delivered. Non-trivial: >= 2 requests racing responses or a loss; distinct by request counts and script.",
+		Rule:        "each case issues 2-40 (thorough: up to 512) concurrent Subscribe/SubscribeLimit*/Unsubscribe calls with unique filters (so request <-> packet identifier is read off the wire) plus 0-4 Ping calls, a quarter with a quit channel; the reference broker withholds every response and a PRNG script of 3-10 steps then answers subsets in random order, duplicates a response, sends unsolicited SUBACK/UNSUBACK/PINGRESP of the right spaces, fails random filter subsets with 0x80, sends a SUBACK with an illegal code or a surplus code for a pending request, breaks the connection, fires quits, issues more requests, calls Close; random yields/sleeps at the Ping hook points; finally everything still answerable is answered. Every 10th case drives the Ping slot hand-over window deterministically through the hook points ping.writefail / ping.quit (park the releasing Ping, let the read routine clear the slot, let a second Ping install, continue), or sends a PINGRESP nobody asked for while a PINGREQ write is stalled after its first byte and then fails (nil needs the request to have gone out). Every 10th case issues 2-8 requests (all kinds, half with a quit) while a reconnect attempt is held pending for 45-85 ms, fires some quits while it is pending (ErrCanceled), then lets the attempt fail by dial error, refusal or missing CONNACK with no further attempt: every request returns ErrDown; or the attempt succeeds after quits fired during the wait, some of the requests then get abandoned with the answer owed and new ones follow (no identifier goes out again while the broker owes an answer under it, and a final Ping proves that nobody lost the write lock). One case keeps a request open while 8,200 others complete, so that the identifier counter comes round to it. Oracle per call, by logical-time intervals: it returns; nil only with a success response for ITS identifier delivered before the return; SubscribeError with exactly the filters its SUBACK failed, in order; ErrSubmit/ErrBreak/ErrDown only with a connection lost (or Close) before the return; ErrCanceled/ErrAbandoned only after its quit fired; ErrClosed only after Close; ErrMax for Ping only with another Ping in flight, for the others only with hundreds of them in flight during the call; successful Pings <= PINGRESPs delivered. Non-trivial: >= 2 requests racing responses or a loss; distinct by request counts and script.",
 		Assumptions: []string{"overlapping calls are judged by interval: a result is accepted when legal for some order of the critical events inside [call, return]", "porcupine is not used here: requests share no state beyond the slot count, which is checked by interval overlap"},
 		Run: func(c *run.Ctx) {
 			if c.Case%10 == 9 {
+				if c.Case/10%3 == 2 {
+					c11EarlyPong(c)
+					return
+				}
 				pingHandover(c, []string{"writefail", "quit"}[c.Case/10%2])
 				return
 			}
@@ -973,4 +977,84 @@ func init() {
 			c11Run(c, nReq, c.Rng.Intn(5), script, c.Rng.Intn(2) == 0)
 		},
 	})
+}
+
+// c11EarlyPong sends a PINGRESP nobody asked for while the write of a PINGREQ
+// is stalled after its first byte; then that write fails. A response that came
+// before the request went out is not the answer to that request: the Ping
+// fails with its connection.
+func c11EarlyPong(c *run.Ctx) {
+	ep := newEpisode(c)
+	w := ep.W
+	defer w.Shutdown()
+	ep.F.Off = true
+	if err := ep.Init(); err != nil {
+		c.Violate("init-failed", err.Error(), nil)
+		return
+	}
+	outcome := []string{"error", "timeout"}[c.Rng.Intn(2)]
+	armed := true
+	w.Mu.Lock()
+	w.WritePlan = func(cn *sim.Conn, p []byte) sim.WriteDecision {
+		if armed && len(p) != 0 && len(p) <= 2 && p[0] == 0xc0 {
+			armed = false
+			if len(p) == 1 {
+				// (handed over byte by byte: the first goes out, the second fails)
+				return sim.WriteDecision{Accept: -1}
+			}
+			return sim.WriteDecision{Accept: 1, GateAfter: "ping", Then: outcome}
+		}
+		if !armed && len(p) == 1 && cn.Idx == 1 && p[0] == 0x00 {
+			return sim.WriteDecision{Accept: 0, Gate: "ping", Then: "error"}
+		}
+		return sim.WriteDecision{Accept: -1}
+	}
+	w.Mu.Unlock()
+	d := ep.D
+	d.StartReader()
+	w.WaitUntil(sim.StepTimeout, func() bool { return w.PointCountLocked("connect.resent") > 0 && w.ReaderQuietLocked() })
+	detail := func() map[string]any { return map[string]any{"trace_tail": w.TraceTail(traceN(c))} }
+	cn := w.CurConn()
+	ping := d.Go("Ping", func() error { return d.C.Ping(nil) })
+	if !w.WaitGateWaiting("ping", 1, sim.StepTimeout) {
+		c.Inconclusive("the PINGREQ write never stalled")
+		c.Spoiled()
+		w.Open("ping")
+		return
+	}
+	cn.Send(wire.Pingresp(), "PINGRESP nobody asked for")
+	w.WaitReaderQuiet(sim.StepTimeout)
+	w.Open("ping")
+	if !w.WaitUntil(sim.StepTimeout, func() bool { return ping.Returned() }) {
+		wedged, report := w.Diagnose(1500 * time.Millisecond)
+		if wedged && !ping.Returned() {
+			dt := detail()
+			dt["report"] = report
+			c.Violate("request-never-returns", "a Ping whose write failed after a PINGRESP came early never returned", dt)
+		} else {
+			c.Inconclusive("Ping slow")
+		}
+		c.Spoiled()
+		return
+	}
+	// was the PINGREQ written in full anywhere before the return?
+	w.Mu.Lock()
+	whole := false
+	for _, x := range w.Conns {
+		pk, _, _ := wire.ParseStream(x.Out, true)
+		for _, q := range pk {
+			if q.Type == wire.PINGREQ && x.SeqOfOut(q.Offset+len(q.Raw)) < ping.RetSeq {
+				whole = true
+			}
+		}
+	}
+	w.Mu.Unlock()
+	if ping.Err == nil && !whole {
+		c.Violate("response-without-request", "Ping returned nil although its PINGREQ never went out whole: the PINGRESP it took came before the request", detail())
+	}
+	c.Count("pongs_ahead_of_the_request", 1)
+	c.Trigger("early-pong|" + outcome)
+	if !d.CloseAndWait() {
+		c.Spoiled()
+	}
 }
